@@ -745,6 +745,8 @@ def make_world(layout: str, origin_vertex: bool = False) -> dict:
                   face(3, 6, 3, 1, 1, [1], side=True, on_node=False, hid=77, fog=2, area=0.5, disp=3, vflags=255)]
     if not vit:
         w['hdr_faces'] = [dict(f, lmoff=f['lmoff'] + 4096) for f in w['faces']]
+    if layout == 'v20':
+        w['hdr_faces'] = []          # an LDR-only map: face IDs present, no HDR faces (the face-ID lump is shared by both views)
 
     def side(plane, ti, bevel=False, bits=0, disp=0):
         return {'plane': plane, 'texinfo': ti, 'disp': disp, 'bevel': bevel, 'bits': bits}
@@ -794,6 +796,9 @@ def make_world(layout: str, origin_vertex: bool = False) -> dict:
                 'uv4': [16.0, -16.0, 0.5], 'fade': fade, 'levels': levels}
 
     w['overlays'] = [overlay(11, 2, [0, 1], 0, [-1.0, 0.0], [0, 0, 0, 0]), overlay(12, 1, [2], 3, [100.0, 40000.0], [1, 2, 3, 254])]
+    if layout == 'v21':
+        # every overlay with the default fades and zero minimum levels; only a maximum level is set
+        w['overlays'] = [overlay(11, 2, [0, 1], 0, [-1.0, 0.0], [0, 0, 0, 0]), overlay(12, 1, [2], 3, [-1.0, 0.0], [0, 2, 0, 1])]
     ver = lay['sprp']
 
     def prop(model, leafs, **kw):
